@@ -22,6 +22,11 @@ def gen_case(rng, nobs=(8, 40), ntargets=(6, 14), models=MODELS, metrics=('eucli
         coords = coords * 7.0
     coords = np.unique(coords, axis=0)
     rng.shuffle(coords, axis=0)
+    if rng.random() < 0.25:
+        # duplicated observation locations (with their own values): the library keeps the first one
+        k = int(rng.integers(1, 4))
+        coords = np.vstack([coords, coords[rng.integers(0, len(coords), size=k)]])
+        rng.shuffle(coords, axis=0)
     n = len(coords)
     values = gen_values(rng, coords, str(rng.choice(['field', 'int'])))
     model = str(rng.choice(models))
@@ -82,6 +87,16 @@ def run_transform(ok, targets):
     return z, np.asarray(ok.sigma, float), int(ok.no_points_error), int(ok.singular_error)
 
 
+def dedup(coords, values):
+    """documented handling of duplicated observation locations: the first occurrence is kept, order preserved"""
+    seen, keep = set(), []
+    for i, row in enumerate(map(tuple, coords.tolist())):
+        if row not in seen:
+            seen.add(row)
+            keep.append(i)
+    return coords[keep], values[keep]
+
+
 def dist_rows(case):
     coords = np.array(case['coords'], float)
     targets = np.array(case['targets'], float)
@@ -94,10 +109,9 @@ class ModelRun:
 
     def __init__(self, ctx, case, ok):
         self.ctx, self.case, self.ok = ctx, case, ok
-        self.coords = np.array(case['coords'], float)
-        self.values = np.array(case['values'], float)
+        self.coords, self.values = dedup(np.array(case['coords'], float), np.array(case['values'], float))
         self.metric = case['vario']['dist_func']
-        self.rows = dist_rows(case)
+        self.rows = cdist(np.array(case['targets'], float), self.coords, metric=self.metric)
         self.rng_eff = case['vario']['effective_range']
         self.sel = {}
         self.res = {}
